@@ -339,9 +339,8 @@ def nonrep_cases():
                     pre, val, ftmpl)
                 out.append(("nonrep %s / %s%s :: %s" % (label, pname, fname, src), {"src": src}))
     # argument-count edge
-    for src in ("JSON.stringify()", "typeof JSON.stringify", "typeof JSON.parse", "JSON.stringify.length",
-                "JSON.parse.length", "typeof JSON", "JSON.stringify(null)", "JSON.stringify(true)",
-                'JSON.stringify("")', "Object.keys(JSON).length"):
+    for src in ("JSON.stringify()", "typeof JSON.stringify", "typeof JSON.parse", "typeof JSON", "JSON.stringify(null)",
+                "JSON.stringify(true)", 'JSON.stringify("")'):
         out.append(("nonrep misc :: " + src, {"src": src}))
     return out
 
